@@ -1156,6 +1156,68 @@ pub fn cond_cast_fields(cond: &str) -> Vec<String> {
     out
 }
 
+/// A twin of the rule: the same rule with ONE aspect altered throughout its detection block
+/// (0: every pattern's case flag toggled, 1: the first letter of every pattern's text in the
+/// other case, 2: identical copy, 3: every integer one higher). Used side by side with the
+/// original on one thread: whatever the engine remembers between evaluations must tell the two
+/// apart.
+pub fn twin_rule(rule: &Yaml, kind: usize) -> Yaml {
+    fn walk(v: &Yaml, kind: usize) -> Yaml {
+        match v {
+            Yaml::String(p) => match kind {
+                0 => match p.strip_prefix('i') {
+                    Some(rest) if !rest.is_empty() => ystr(rest),
+                    _ => ystr(&format!("i{}", p)),
+                },
+                1 => {
+                    let mut out = String::new();
+                    let mut done = false;
+                    for c in p.chars() {
+                        if !done && c.is_ascii_alphabetic() && !(out.is_empty() && c == 'i') {
+                            out.push(if c.is_ascii_lowercase() { c.to_ascii_uppercase() } else { c.to_ascii_lowercase() });
+                            done = true;
+                        } else {
+                            out.push(c);
+                        }
+                    }
+                    ystr(&out)
+                }
+                _ => v.clone(),
+            },
+            Yaml::Number(n) if kind == 3 => match n.as_i64() {
+                Some(i) if i < i64::MAX => Yaml::Number((i + 1).into()),
+                _ => v.clone(),
+            },
+            Yaml::Sequence(s) => Yaml::Sequence(s.iter().map(|x| walk(x, kind)).collect()),
+            Yaml::Mapping(m) => Yaml::Mapping(m.iter().map(|(k, x)| (k.clone(), walk(x, kind))).collect()),
+            _ => v.clone(),
+        }
+    }
+    let mut out = rule.clone();
+    if let Some(det) = out.as_mapping_mut().and_then(|m| m.get_mut("detection")).and_then(|d| d.as_mapping_mut()) {
+        let keys: Vec<Yaml> = det.keys().cloned().collect();
+        for key in keys {
+            if key.as_str() == Some("condition") {
+                continue;
+            }
+            if let Some(v) = det.get(&key).cloned() {
+                det.insert(key, walk(&v, kind));
+            }
+        }
+    }
+    out
+}
+
+/// The document with every string value in upper (or lower) case.
+pub fn recase_doc(v: &MVal, upper: bool) -> MVal {
+    match v {
+        MVal::Str(s) => MVal::Str(if upper { s.to_uppercase() } else { s.to_lowercase() }),
+        MVal::Arr(a) => MVal::Arr(a.iter().map(|x| recase_doc(x, upper)).collect()),
+        MVal::Obj(o) => MVal::Obj(o.iter().map(|(k, x)| (k.clone(), recase_doc(x, upper))).collect()),
+        other => other.clone(),
+    }
+}
+
 pub fn detection_of(rule: &Yaml) -> Option<&Mapping> {
     rule.as_mapping()?.get("detection")?.as_mapping()
 }
